@@ -423,7 +423,7 @@ def shard_bfs(args):
         # the initial state: nothing written yet, hence not "clean"
         frontier = [([], (0, False))]
         seen.add(repr((0, 0, supply0, False)))
-        for level in range(depth):
+        for _ in range(depth):
             successors = []
             for hist, info in frontier:
                 if info[1]:
